@@ -16,6 +16,7 @@ package nilness_test
 
 import (
 	"fmt"
+	"sort"
 	"strings"
 )
 
@@ -1123,6 +1124,75 @@ func c15Families() []c15Spec {
 					}
 				}
 			}
+		}
+	}
+	// --- big: functions with more than 64 (and more than 128) basic blocks: loops behind a prefix
+	// of trivial if statements, so that the loop's blocks lie below, across and above the block
+	// indices 64 and 128. Members: the swap loops of the loop family (kinds *T and any) and loops
+	// that overwrite a non-nil value with a possibly-nil one.
+	prefix := func(n int) string {
+		if n == 0 {
+			return ""
+		}
+		var b strings.Builder
+		b.WriteString("cnt := 0\n")
+		for i := 0; i < n; i++ {
+			fmt.Fprintf(&b, "if k > %d {\n\tcnt++\n}\n", 100+i)
+		}
+		b.WriteString("_ = cnt\n")
+		return b.String()
+	}
+	ifs := []int{0, 20, 31, 32, 33, 40, 70}
+	for _, n := range ifs {
+		for _, k := range []int{kP, kA} {
+			if n == 0 {
+				continue // that is the loop family itself
+			}
+			in := inits(k)
+			typ := c15Type[k]
+			maps := [][2]int{{1, 0}}
+			if n == 40 {
+				maps = [][2]int{{1, 0}, {1, 1}, {0, 0}}
+			}
+			for i0 := range in {
+				for i1 := range in {
+					for _, m := range maps {
+						for ret := 0; ret < 2; ret++ {
+							id := fmt.Sprintf("ifs=%d;v0=%s;v1=%s;loop{v0,v1=v%d,v%d};ret(v%d)", n, initID[i0], initID[i1], m[0], m[1], ret)
+							body := fmt.Sprintf("var v0 %s = %s\nvar v1 %s = %s\n_, _ = v0, v1\nfor j := 0; j < k; j++ {\n\tv0, v1 = v%d, v%d\n}\nreturn v%d", typ, in[i0], typ, in[i1], m[0], m[1], ret)
+							add("big", id, one(k), one(k), 3, false, nil, prefix(n)+body)
+						}
+					}
+				}
+			}
+		}
+		// overwrite loops: r starts non-nil and is overwritten inside the loop
+		type ow struct {
+			k      int
+			id     string
+			params []int
+			loop   string
+		}
+		var ows []ow
+		for _, k := range []int{kP, kA, kI} {
+			v := c15Var[k]
+			ows = append(ows,
+				ow{k, "for{r=param}", one(k), "for j := 0; j < k; j++ {\n\tr = " + v + "\n}"},
+				ow{k, "for{r=nil}", nil, "for j := 0; j < k; j++ {\n\tr = nil\n}"},
+				ow{k, "range(s){r=param}", []int{kS, k}, "for range s {\n\tr = " + v + "\n}"},
+				ow{k, "for{if(j==1){r=param}}", one(k), "for j := 0; j < k; j++ {\n\tif j == 1 {\n\t\tr = " + v + "\n\t}\n}"},
+			)
+		}
+		ows = append(ows,
+			ow{kP, "for{r=m[j]}", one(kM), "for j := 0; j < k; j++ {\n\tr = m[j]\n}"},
+			ow{kA, "for{r=i}", one(kI), "for j := 0; j < k; j++ {\n\tr = i\n}"},
+			ow{kI, "for{r,_=a.(Iface)}", one(kA), "for j := 0; j < k; j++ {\n\tr, _ = a.(§Iface)\n}"},
+		)
+		for _, o := range ows {
+			params := append([]int(nil), o.params...)
+			sort.Ints(params)
+			body := "var r " + c15Type[o.k] + " = " + c15Fresh[o.k] + "\n" + o.loop + "\nreturn r"
+			add("big", fmt.Sprintf("ifs=%d;r=fresh;%s;ret(r)", n, o.id), one(o.k), params, 3, false, nil, prefix(n)+body)
 		}
 	}
 	return out
